@@ -74,6 +74,7 @@ type Language struct {
 type Badge struct { // polymorphic has-one
 	ID         uint `gorm:"primaryKey"`
 	Label      string
+	UpdatedS   int64 `gorm:"autoUpdateTime"`
 	HolderID   uint
 	HolderType string
 }
@@ -88,6 +89,8 @@ type User struct {
 	Age       int
 	CreatedAt time.Time
 	UpdatedAt time.Time
+	BuddyID   *uint
+	Buddy     *User // belongs-to the same table (cycles are possible)
 	CompanyID *uint
 	Company   *Company // belongs-to by pointer
 	HomeID    *uint
@@ -178,6 +181,7 @@ type UserSpec struct {
 	Profile *ToySpec  `json:"profile,omitempty"` // id+bio
 	Badge   *ToySpec  `json:"badge,omitempty"`   // id+label (polymorphic has-one)
 	Notes   []ToySpec `json:"notes,omitempty"`   // id+text (has-many of pointers)
+	Buddy   string    `json:"buddy,omitempty"`   // "self": the record is its own buddy (a cycle) | "new": a fresh user
 	Pets    []PetSpec `json:"pets,omitempty"`
 	Langs   []ToySpec `json:"langs,omitempty"` // id+code
 	Toys    []ToySpec `json:"toys,omitempty"`
@@ -192,6 +196,8 @@ type Op struct {
 	Select   []string   `json:"select,omitempty"` // delete: association names, or "*" for clause.Associations
 	Target   uint       `json:"target,omitempty"` // updates: id of the row updated
 	Targets  []uint     `json:"targets,omitempty"` // updates_slice: ids of the rows of the slice model
+	Pet      PetSpec    `json:"pet,omitempty"`     // create_pet
+	Table    string     `json:"table,omitempty"`   // update_row: companies | profiles | badges
 	// options
 	Omit      []string `json:"omit,omitempty"`      // create/save/updates: Omit(...)
 	Sel       []string `json:"sel,omitempty"`       // create/save/updates: Select(...)
@@ -433,7 +439,28 @@ func doOp(db *gorm.DB, op Op) error {
 	switch op.Kind {
 	case "create":
 		u := buildUser(op.Users[0])
+		switch op.Users[0].Buddy {
+		case "self":
+			u.Buddy = &u
+		case "new":
+			u.Buddy = &User{Name: op.Users[0].Name + "-buddy"}
+		}
 		return db.Create(&u).Error
+	case "create_value": // the record passed BY VALUE: hooks cannot be called on it
+		return db.Create(buildUser(op.Users[0])).Error
+	case "create_pet": // a record with a has-one held by value, polymorphic children, a default value
+		p := buildUser(UserSpec{Pets: []PetSpec{op.Pet}}).Pets[0]
+		p.UserID = op.Target
+		return db.Create(&p).Error
+	case "update_row": // rows whose update time is tracked in seconds / milli- / nanoseconds
+		switch op.Table {
+		case "companies":
+			return db.Model(&Company{ID: op.Target}).Updates(Company{Name: op.Users[0].Name}).Error
+		case "profiles":
+			return db.Model(&Profile{ID: op.Target}).Update("bio", op.Users[0].Name).Error
+		default:
+			return db.Model(&Badge{ID: op.Target}).Updates(map[string]interface{}{"label": op.Users[0].Name}).Error
+		}
 	case "create_slice":
 		us := users(op)
 		return db.Create(&us).Error
@@ -593,10 +620,10 @@ func faultTerm(k int) string {
 	return lib.App("Some", lib.Nat(k))
 }
 
-func term(in Input, free, o Observed) string {
+func term(in Input, free, o Observed, natural bool) string {
 	errk := map[string]string{"nil": "XNil", "fault": "XFault", "hook": "XHook", "other": "XOther"}[o.ErrK]
 	return lib.App("mk_case",
-		lib.ListOf(free.Evs, evTerm), faultTerm(in.DFault), faultTerm(in.HFault),
+		lib.ListOf(free.Evs, evTerm), faultTerm(in.DFault), faultTerm(in.HFault), lib.Bool(natural),
 		lib.ListOf(o.Evs, evTerm), errk, lib.Bool(o.Wrapped),
 		lib.ListOf(o.Match, lib.Bool), lib.Z(o.InUse), lib.Z(o.OpenTx))
 }
@@ -699,7 +726,7 @@ func (g *gen) user(existing bool) UserSpec {
 func (g *gen) input() Input {
 	r := g.r
 	in := Input{DFault: -1, HFault: -1, Seed: []UserSpec{}}
-	for i := r.Range(0, 2); i > 0; i-- {
+	for i := lib.Pick(r, []int{0, 1, 1, 2, 2, 2}); i > 0; i-- {
 		in.Seed = append(in.Seed, g.user(false))
 	}
 	g.seed = in.Seed
@@ -714,9 +741,42 @@ func (g *gen) input() Input {
 	for _, u := range in.Seed {
 		pets += uint(len(u.Pets))
 	}
-	switch c := r.Intn(40); {
+	_, ncomp, _, _, _, nprof := seedCounts(in.Seed)
+	nbadge := uint(0)
+	for _, u := range in.Seed {
+		if u.Badge != nil {
+			nbadge++
+		}
+	}
+	switch c := r.Intn(44); {
+	case c >= 40 && c < 42:
+		op.Kind, op.Target = "create_pet", nu
+		op.Pet = PetSpec{Name: g.name("p"), Toys: g.toys(2), Collar: &ToySpec{Name: g.name("k")}}
+		if r.Bool() {
+			op.Pet.Kind = "cat"
+		}
+	case c >= 42 && ncomp+nprof+nbadge > 0:
+		op.Kind = "update_row"
+		op.Users = []UserSpec{{Name: g.name("r")}}
+		switch {
+		case ncomp > 0 && (r.Bool() || nprof+nbadge == 0):
+			op.Table, op.Target = "companies", uint(r.Range(1, int(ncomp)))
+		case nprof > 0 && (r.Bool() || nbadge == 0):
+			op.Table, op.Target = "profiles", uint(r.Range(1, int(nprof)))
+		default:
+			op.Table, op.Target = "badges", uint(r.Range(1, int(nbadge)))
+		}
 	case c < 8:
-		op.Kind, op.Users = "create", []UserSpec{g.user(true)}
+		u := g.user(true)
+		if r.Chance(1, 5) {
+			u.Buddy = lib.Pick(r, []string{"self", "new"})
+		}
+		op.Kind, op.Users = "create", []UserSpec{u}
+		if r.Chance(1, 12) {
+			op.Kind = "create_value"
+		} else if nu > 0 && r.Chance(1, 12) {
+			op.Users[0].ID = uint(r.Range(1, int(nu))) // key already taken: the INSERT fails after the belongs-to rows were written
+		}
 	case c < 12:
 		op.Kind = lib.Pick(r, []string{"create_slice", "create_slice", "create_ptrs"})
 		many(1, 3)
@@ -763,13 +823,19 @@ func (g *gen) input() Input {
 		op.Kind, op.Target = lib.Pick(r, []string{"updates_map", "update_col", "update_columns"}), uint(r.Range(1, int(nu)))
 		op.Users = []UserSpec{{Name: g.name("r"), Age: r.Range(1, 90)}}
 		op.Returning = r.Chance(1, 3)
-	case c < 33 && nu > 0:
+		switch r.Intn(4) { // column selection for the update
+		case 0:
+			op.Sel = []string{"name"}
+		case 1:
+			op.Omit = []string{"age"}
+		}
+	case c < 34 && nu > 0:
 		op.Kind = "updates_slice"
 		for id := uint(1); id <= nu; id++ {
 			op.Targets = append(op.Targets, id)
 		}
 		op.Users = []UserSpec{{Name: g.name("r"), Age: r.Range(1, 90)}}
-	case c < 35 && pets > 0:
+	case c < 36 && pets > 0:
 		op.Kind = "delete_pet"
 		op.Users = []UserSpec{{ID: uint(r.Range(1, int(pets)))}}
 		op.Unscoped = r.Bool()
@@ -802,7 +868,7 @@ func (g *gen) input() Input {
 		if r.Chance(1, 4) {
 			op.FullSave = true
 		}
-		switch r.Intn(8) { // associations left out / picked
+		switch r.Intn(10) { // associations left out / picked
 		case 0:
 			op.Omit = []string{lib.Pick(r, []string{"Company", "Pets", "Languages", "Profile", "Home"})}
 		case 1:
@@ -811,6 +877,10 @@ func (g *gen) input() Input {
 			op.Sel = []string{"Name", "Age", lib.Pick(r, []string{"Company", "Pets", "Languages", "Toys", "Notes"})}
 		case 3:
 			op.Sel = []string{"*"}
+		case 4:
+			op.Omit = []string{"Company.Name"} // a column of an association
+		case 5:
+			op.Sel = []string{"*", "Company", "Company.Name"}
 		}
 	}
 	if strings.HasPrefix(op.Kind, "create") || op.Kind == "save" || op.Kind == "save_slice" {
@@ -897,7 +967,11 @@ func main() {
 		in.DFault, in.HFault = -1, -1
 		free, dumps := runOnce(in, nil)
 		if free.ErrK != "nil" {
-			out.Count("skipped", "fault-free run reports "+free.ErrK+" "+free.ErrText)
+			// the operation fails by itself (empty slice, constraint ...): no model prediction, but the
+			// property still says: database unchanged, failure reported, transaction closed
+			out.Count("natural_failure", free.ErrText)
+			out.Add(lib.Case{Term: term(in, free, free, true), JSON: map[string]interface{}{"input": in, "observed": free, "free": free},
+				Sig: sig(in), Kind: kind, Shape: "natural|" + shape(in, free), Nontriv: false})
 			return
 		}
 		nops, nhooks, npipes := 0, 0, 0
@@ -951,7 +1025,7 @@ func main() {
 					}
 				}
 			}
-			out.Add(lib.Case{Term: term(in, free, o), JSON: map[string]interface{}{"input": in, "observed": o, "free": free},
+			out.Add(lib.Case{Term: term(in, free, o, false), JSON: map[string]interface{}{"input": in, "observed": o, "free": free},
 				Sig: sig(in), Kind: kind, Shape: shape(in, free), Nontriv: nops >= 4 && nhooks >= 2})
 			out.Count("operation", in.Op.Kind)
 			out.Count("fault", fk)
